@@ -91,6 +91,30 @@ func c17() {
 		}
 	}
 	rng := rand.New(rand.NewSource(seed))
+	// "whenever a range check passes, reading or writing that range touches only payload bytes below the frame
+	// length": the accessors themselves on every fitting geometry, onto an all-ones and a random background (a write
+	// that clears or sets a bit outside its range shows as a difference from the model's write)
+	for _, g := range geometries() {
+		m := maskOf(g.l)
+		for _, d0 := range []can.Data{dataOf(^uint64(0)), dataOf(rng.Uint64())} {
+			for _, v := range []uint64{0, rng.Uint64() & m} {
+				d := d0
+				if g.be {
+					d.SetUnsignedBitsBigEndian(g.s, g.l, v)
+					fmt.Fprintf(out, "WUB %d %d %s %x %s\n", g.s, g.l, hexData(d0), v, hexData(d))
+				} else {
+					d.SetUnsignedBitsLittleEndian(g.s, g.l, v)
+					fmt.Fprintf(out, "WUL %d %d %s %x %s\n", g.s, g.l, hexData(d0), v, hexData(d))
+				}
+			}
+			d := d0
+			if g.be {
+				fmt.Fprintf(out, "UB %d %d %s %x\n", g.s, g.l, hexData(d), d.UnsignedBitsBigEndian(g.s, g.l))
+			} else {
+				fmt.Fprintf(out, "UL %d %d %s %x\n", g.s, g.l, hexData(d), d.UnsignedBitsLittleEndian(g.s, g.l))
+			}
+		}
+	}
 	for b := 1; b <= 64; b++ {
 		vals := []uint64{0, 1, ^uint64(0), 1 << 63, 1<<63 - 1}
 		if b < 64 {
